@@ -18,10 +18,10 @@ Transcription rules
   anyway, in place.  `checked_mul` / `checked_add` on `u64` in the length probe are the comparisons
   `≥ 2^64`.
 * `for _ in 0..n` loops are structural recursion on `n`.
-* **Allocate before read** (`buf.resize(length, 0)` ahead of `read_exact`): the allocation succeeds
-  iff `length ≤ allocCap`, where `allocCap` (a parameter of the model) is the largest buffer the
-  process can obtain; otherwise the process aborts: `Err.Abort`.  (`buf` is reused and only ever
-  resized to the current `length`, so the request that matters is `length` itself.)
+* Atom bytes are read with `reader.by_ref().take(length).read_to_end(&mut buf)` followed by
+  `n != length ⇒ SerializationError` (since the repair of finding I, commit 090b8ec: nothing is
+  allocated from the *declared* length any more): on a slice this is "fewer than `length` bytes remain
+  ⇒ `SerializationError`, else take `length` bytes".
 * The caller's `Allocator` is `Intern.Counters` (limits as consulted by `new_atom` / `new_pair`);
   nodes are their denotation `Tree` (the decoder's sharing is not observable through C20).
 * `Vec` stacks: head of the list = top of the stack.  `write_varint` panics outside the 56-bit
@@ -360,7 +360,8 @@ def checkedBoundedUsize (value : Int) (max : Nat) : Except Err Nat :=
   | .error e => .error e
   | .ok value => if value > max then .error .SerializationError else .ok value
 
-/-- `for _ in 0..count { reader.read_exact(&mut buf)…; atoms.push(allocator.new_atom(&buf)?) }` -/
+/-- `for _ in 0..count { buf.clear(); take(length).read_to_end(&mut buf)…; n != length ⇒ error;
+atoms.push(allocator.new_atom(&buf)?) }` -/
 def readAtoms (length : Nat) : Nat → Bytes → Counters → List Bytes → Except Err (Bytes × Counters × List Bytes)
   | 0, inp, ctr, atoms => .ok (inp, ctr, atoms)
   | count + 1, inp, ctr, atoms =>
@@ -393,7 +394,7 @@ def readGroupHeader (maxAtomLen : Nat) (strict : Bool) (inp : Bytes) : Except Er
       | .ok length => .ok (length, 1, inp1)
 
 /-- `for _ in 0..group_count { … }` of the decoder -/
-def readGroups (allocCap maxAtomLen : Nat) (strict : Bool) :
+def readGroups (maxAtomLen : Nat) (strict : Bool) :
     Nat → Bytes → Counters → List Bytes → Except Err (Bytes × Counters × List Bytes)
   | 0, inp, ctr, atoms => .ok (inp, ctr, atoms)
   | groupCount + 1, inp, ctr, atoms =>
@@ -401,12 +402,10 @@ def readGroups (allocCap maxAtomLen : Nat) (strict : Bool) :
     | .error e => .error e
     | .ok (length, count, inp') =>
       if length == 0 || count == 0 then .error .SerializationError
-      -- `buf.resize(length, 0)`
-      else if length > allocCap then .error (.Abort "buf.resize(length, 0): memory allocation failed")
       else
         match readAtoms length count inp' ctr atoms with
         | .error e => .error e
-        | .ok (inp'', ctr', atoms') => readGroups allocCap maxAtomLen strict groupCount inp'' ctr' atoms'
+        | .ok (inp'', ctr', atoms') => readGroups maxAtomLen strict groupCount inp'' ctr' atoms'
 
 /-- decoder state of the instruction loop -/
 structure DState where
@@ -468,7 +467,7 @@ def runInstructions (atoms : List Bytes) (strict : Bool) : Nat → Bytes → DSt
 
 /-- `deserialize_2026_body_from_stream(allocator, reader, max_atom_len, strict)`: the tree, the
 unread remainder and the allocator counters afterwards. -/
-def deserializeBody (allocCap : Nat) (ctr : Counters) (inp : Bytes) (maxAtomLen : Nat) (strict : Bool) :
+def deserializeBody (ctr : Counters) (inp : Bytes) (maxAtomLen : Nat) (strict : Bool) :
     Except Err (Tree × Bytes × Counters) :=
   match readVarint strict inp with
   | .error e => .error e
@@ -476,7 +475,7 @@ def deserializeBody (allocCap : Nat) (ctr : Counters) (inp : Bytes) (maxAtomLen 
     match checkedUsize gc with
     | .error e => .error e
     | .ok groupCount =>
-      match readGroups allocCap maxAtomLen strict groupCount inp1 ctr [] with
+      match readGroups maxAtomLen strict groupCount inp1 ctr [] with
       | .error e => .error e
       | .ok (inp2, ctr2, atoms) =>
         match readVarint strict inp2 with
@@ -497,22 +496,22 @@ def deserializeBody (allocCap : Nat) (ctr : Counters) (inp : Bytes) (maxAtomLen 
                   | some t => .ok (t, inp4, s.ctr)
 
 /-- `deserialize_2026_from_stream` -/
-def deserializeFromStream (allocCap : Nat) (ctr : Counters) (inp : Bytes) (maxAtomLen : Nat) (strict : Bool) :
+def deserializeFromStream (ctr : Counters) (inp : Bytes) (maxAtomLen : Nat) (strict : Bool) :
     Except Err (Tree × Bytes × Counters) :=
   if inp.length < magic.length then .error .SerializationError         -- `read_exact(&mut prefix_buf)?`
   else if inp.take magic.length != magic then .error .SerializationError
-  else deserializeBody allocCap ctr (inp.drop magic.length) maxAtomLen strict
+  else deserializeBody ctr (inp.drop magic.length) maxAtomLen strict
 
 /-- `deserialize_2026(allocator, blob, max_atom_len, strict)` with a fresh `Allocator::new()` -/
-def deserialize2026 (allocCap : Nat) (blob : Bytes) (maxAtomLen : Nat) (strict : Bool) : Except Err Tree :=
-  match deserializeFromStream allocCap Counters.new blob maxAtomLen strict with
+def deserialize2026 (blob : Bytes) (maxAtomLen : Nat) (strict : Bool) : Except Err Tree :=
+  match deserializeFromStream Counters.new blob maxAtomLen strict with
   | .error e => .error e
   | .ok (t, _, _) => .ok t
 
 /-- the same with the cursor position afterwards -/
-def deserialize2026Consumed (allocCap : Nat) (blob : Bytes) (maxAtomLen : Nat) (strict : Bool) :
+def deserialize2026Consumed (blob : Bytes) (maxAtomLen : Nat) (strict : Bool) :
     Except Err (Tree × Nat) :=
-  match deserializeFromStream allocCap Counters.new blob maxAtomLen strict with
+  match deserializeFromStream Counters.new blob maxAtomLen strict with
   | .error e => .error e
   | .ok (t, rest, _) => .ok (t, blob.length - rest.length)
 
